@@ -64,6 +64,8 @@ pub struct Prod {
     pub sort: Sort,
     pub segs: Vec<Seg>,
     pub holes: usize,
+    /// deliberately ill-formatted (payload alphabet of C07); only in `Model::with_ugly`
+    pub ugly: bool,
 }
 
 fn parse_tpl(t: &str) -> (Vec<Seg>, usize) {
@@ -93,7 +95,7 @@ fn parse_tpl(t: &str) -> (Vec<Seg>, usize) {
 
 macro_rules! prods {
     ($( $sort:ident $name:literal $tpl:literal ; )*) => {
-        vec![ $( { let (segs, holes) = parse_tpl($tpl); Prod { name: $name, sort: Sort::$sort, segs, holes } } ),* ]
+        vec![ $( { let (segs, holes) = parse_tpl($tpl); Prod { name: $name, sort: Sort::$sort, segs, holes, ugly: false } } ),* ]
     };
 }
 
@@ -328,6 +330,49 @@ pub fn productions() -> Vec<Prod> {
     }
 }
 
+/// Payload alphabet of C07: well-formed but badly formatted nodes.
+pub fn ugly_productions() -> Vec<Prod> {
+    let mut v = prods! {
+        E "u_call"       "g( 1,2 )";
+        E "u_call_ml"    "g(1,\n      2,\n  3)";
+        E "u_call_tb"    "g(1,  \n 2)";
+        E "u_arr"        "( 1 ,2 )";
+        E "u_dict"       "(k:1,l :2)";
+        E "u_block"      "{ let  q=1;q }";
+        E "u_block_ml"   "{\n let q = 1\n      q\n}";
+        E "u_content"    "[ a   b ]";
+        E "u_closure"    "x=>x +1";
+        E "u_eq"         "$a+b  c$";
+        E "u_binary"     "a  +  b";
+        E "u_chain"      "a . b( 1 ) .c()";
+        E "u_if"         "if  a {b}else{ c }";
+        E "u_str"        "\"s  \n t\"";
+        E "u_paren"      "(  a  )";
+        E "u_unary"      "- a";
+        S "u_let"        "let  q  =  1";
+        S "u_set"        "set  g( a:1 )";
+        S "u_show"       "show  a :  b";
+        S "u_import"     "import  \"m.typ\" :b,a";
+        X "u_m_binary"   "a  +  b";
+        X "u_m_call"     "f( x ,y )";
+        X "u_m_attach"   "x _ 1";
+        X "u_m_frac"     "a   /   b";
+        X "u_m_delim"    "(  x  )";
+        X "u_m_ml"       "a  &= b \\\n      c";
+        M "u_strong"     "*a   b*";
+        M "u_hash"       "#g( 1,2 )";
+        M "u_eq_m"       "$a+b  c$";
+        M "u_text"       "a   b    c";
+        P "u_pat"        "( p ,q )";
+        A "u_named"      "k :  1";
+        R "u_param"      "k :  1";
+    };
+    for p in &mut v {
+        p.ugly = true;
+    }
+    v
+}
+
 /// Contexts: root templates with one hole. They set the printer's mode flags
 /// (Markup / Code / CodeCont / Math, break suppression, indentation level).
 #[derive(Clone, Debug)]
@@ -463,6 +508,13 @@ impl Default for Model {
 impl Model {
     pub fn new() -> Model {
         Model { prods: productions(), ctxs: contexts() }
+    }
+
+    /// The model extended with the payload alphabet of C07.
+    pub fn with_ugly() -> Model {
+        let mut prods = productions();
+        prods.extend(ugly_productions());
+        Model { prods, ctxs: contexts() }
     }
 
     pub fn ctx_index(&self, name: &str) -> usize {
@@ -651,7 +703,7 @@ pub const FORMS_ALL: &[&str] = &[
     "none", "sp", "sp2", "tab", "nl", "nl2", "nl4", "nl_sp", "crlf", "cr", "ls", "bc", "bc_sp", "lc", "lc_sp", "nl_lc",
     "bc_ml", "bc_star", "lc_lc", "bc_bc", "nl_bc_nl",
 ];
-pub const FORMS_QUICK: &[&str] = &["none", "sp", "nl", "nl2", "nl4", "cr", "bc", "lc", "lc_sp", "nl_lc", "bc_ml", "bc_sp"];
+pub const FORMS_QUICK: &[&str] = &["nl", "lc", "bc", "none", "nl2", "sp", "nl_lc", "bc_ml", "lc_sp", "bc_sp", "nl4", "cr"];
 
 /// Apply deviations (gap index, form) to `base`. Gaps must come from `syntax::gaps(parse(base))`.
 /// Distinct comments get distinct texts: the i-th applied deviation's `c1`/`c2` become `c{2i+1}`/`c{2i+2}`.
